@@ -48,6 +48,10 @@ func (x *hist) rotate(v, v2 int) {
 	if err := a.BankKeeper.SendCoinsFromModuleToAccount(ctx, minttypes.ModuleName, addr, recoverykeeper.RecoveryFee); err != nil {
 		panic(err)
 	}
+	if _, err := a.RecoveryKeeper.GetRecoveryToken(ctx, addr.String()); err == nil {
+		x.rotateHalf(v, v2) // an address that issued a recovery token can only be rotated by its holders
+		return
+	}
 	x.propSeq++
 	proof := sha256.Sum256([]byte(fmt.Sprintf("verif-rotation-secret-%d-%d", v, x.propSeq)))
 	challenge := sha256.Sum256(proof[:])
@@ -55,6 +59,7 @@ func (x *hist) rotate(v, v2 int) {
 	msg := recoverytypes.NewMsgRotateRecoveryAddress(addr.String(), addr.String(), rot.String(), hex.EncodeToString(proof[:]))
 	ms := recoverykeeper.NewMsgServerImpl(a.RecoveryKeeper)
 	res, e := x.runMsg(func(c sdk.Context) error { _, err := ms.RotateRecoveryAddress(sdk.WrapSDKContext(c), msg); return err })
+	x.markRot(v, v2)
 	x.record(fmt.Sprintf("ORotate %d %d", v, v2), jop{Op: "rotate", V: v, To: v2, Err: e}, res, "")
 }
 
@@ -211,4 +216,77 @@ func (x *hist) setProp(which int, value uint64) {
 		res = "RRej"
 	}
 	x.record(fmt.Sprintf("OSetProp %d %d %s", which, value, hx.B(accepted)), jop{Op: "set-property", Note: fmt.Sprintf("%s=%d", propNames[which], value), Err: e}, res, "")
+}
+
+// rotateHalf: the REAL recovery MsgRotateValidatorByHalfRRTokenHolder: the validator at address v has issued
+// its recovery token (MsgIssueRecoveryTokens, done here if it has none yet); the holder of all of it
+// (>= half) rotates the validator to the unused address v2.  Staking effect = the model's ORotate.
+func (x *hist) rotateHalf(v, v2 int) {
+	if x.dead {
+		return
+	}
+	w := x.w
+	a := appOf(w)
+	ctx := x.blockCtx()
+	addr, rot := sdk.AccAddress(w.valAddrs[v]), sdk.AccAddress(w.valAddrs[v2])
+	ms := recoverykeeper.NewMsgServerImpl(a.RecoveryKeeper)
+	if x.rrHolder == nil {
+		x.rrHolder = map[string]string{}
+	}
+	holder, has := x.rrHolder[addr.String()]
+	if _, err := a.RecoveryKeeper.GetRecoveryToken(ctx, addr.String()); err != nil {
+		// issue the token: bond in KEX, moniker record required
+		if a.AccountKeeper.GetAccount(ctx, addr) == nil {
+			a.AccountKeeper.SetAccount(ctx, a.AccountKeeper.NewAccountWithAddress(ctx, addr))
+		}
+		bond := sdk.NewCoins(sdk.NewCoin("ukex", sdk.NewInt(int64(a.CustomGovKeeper.GetNetworkProperties(ctx).ValidatorRecoveryBond)).Mul(sdk.NewInt(1000_000))))
+		if err := a.BankKeeper.MintCoins(ctx, minttypes.ModuleName, bond); err != nil {
+			panic(err)
+		}
+		if err := a.BankKeeper.SendCoinsFromModuleToAccount(ctx, minttypes.ModuleName, addr, bond); err != nil {
+			panic(err)
+		}
+		c, write := ctx.CacheContext()
+		if _, err := ms.IssueRecoveryTokens(sdk.WrapSDKContext(c), recoverytypes.NewMsgIssueRecoveryTokens(addr.String())); err != nil {
+			// no moniker record (genesis validator): this validator can only be rotated by its recovery secret
+			x.rotate(v, v2)
+			return
+		}
+		write()
+		holder, has = addr.String(), true
+	}
+	if !has {
+		holder = addr.String()
+	}
+	msg := recoverytypes.NewMsgRotateValidatorByHalfRRTokenHolder(holder, addr.String(), rot.String())
+	res, e := x.runMsg(func(c sdk.Context) error { _, err := ms.RotateValidatorByHalfRRTokenHolder(sdk.WrapSDKContext(c), msg); return err })
+	if res == "ROk" {
+		delete(x.rrHolder, addr.String())
+		x.rrHolder[rot.String()] = holder
+	}
+	x.markRot(v, v2)
+	x.record(fmt.Sprintf("ORotate %d %d", v, v2), jop{Op: "rotate", V: v, To: v2, Err: e, Note: "MsgRotateValidatorByHalfRRTokenHolder"}, res, "")
+}
+
+// rotTargets: unused addresses that may receive a rotated validator: not a validator, no pending claim, no
+// rotation history, not a network actor
+func (x *hist) rotTargets() []int {
+	var out []int
+	gk := appOf(x.w).CustomGovKeeper
+	for _, id := range x.unclaimed() {
+		if x.rotUsed[id] {
+			continue
+		}
+		if _, found := gk.GetNetworkActorByAddress(x.blockCtx(), sdk.AccAddress(x.w.valAddrs[id])); found {
+			continue
+		}
+		out = append(out, id)
+	}
+	return out
+}
+func (x *hist) markRot(v, v2 int) {
+	if x.rotUsed == nil {
+		x.rotUsed = map[int]bool{}
+	}
+	x.rotUsed[v], x.rotUsed[v2] = true, true
 }
